@@ -1,0 +1,10 @@
+//go:build verif
+
+package vgirpc
+
+// Verification hook for property C23 (authenticator error -> HTTP status mapping).
+// Add-only; compiled only with -tags verif.
+
+// VerifC23SetWWWAuthenticate sets the pre-built WWW-Authenticate value the server attaches to
+// 401 responses (normally derived by SetOAuthResourceMetadata); "" means none configured.
+func (h *HttpServer) VerifC23SetWWWAuthenticate(v string) { h.wwwAuthenticate = v }
